@@ -27,8 +27,32 @@ fn n(e: &Value, f: &str) -> i64 {
     e[f].as_i64().unwrap_or_else(|| panic!("field {} missing in {}", f, e))
 }
 
+fn is_named(e: &Value) -> bool {
+    e.get("named").and_then(|v| v.as_bool()).unwrap_or(false)
+}
+/// the name of named group n: x followed by n ones
+pub fn gname(n: i64) -> String {
+    let mut s = String::from("x");
+    for _ in 0..n {
+        s.push('1')
+    }
+    s
+}
+
 /// prec: 0 = alternation allowed bare, 1 = concatenation allowed bare, 2 = must be an atom
+#[derive(Clone, Copy, Default)]
+pub struct PrintOpt {
+    /// the pattern is prefixed with (?U): every quantifier's laziness mark is inverted
+    pub swap_greed: bool,
+    /// the pattern is prefixed with (?x): insignificant white space is sprinkled between pieces
+    pub spaces: bool,
+}
+
 pub fn print(e: &Value, prec: u8, out: &mut String) {
+    print_o(e, prec, out, &PrintOpt::default())
+}
+
+pub fn print_o(e: &Value, prec: u8, out: &mut String, o: &PrintOpt) {
     let k = s(e, "k");
     match k {
         "empty" => {
@@ -69,7 +93,10 @@ pub fn print(e: &Value, prec: u8, out: &mut String) {
                 out.push_str("(?:")
             }
             for x in e["xs"].as_array().unwrap() {
-                print(x, 1, out)
+                print_o(x, 1, out, o);
+                if o.spaces {
+                    out.push(' ')
+                }
             }
             if prec >= 2 {
                 out.push(')')
@@ -81,9 +108,9 @@ pub fn print(e: &Value, prec: u8, out: &mut String) {
             }
             for (i, x) in e["xs"].as_array().unwrap().iter().enumerate() {
                 if i > 0 {
-                    out.push('|')
+                    out.push_str(if o.spaces { " |\n " } else { "|" })
                 }
-                print(x, 1, out)
+                print_o(x, 1, out, o)
             }
             if prec >= 1 {
                 out.push(')')
@@ -91,7 +118,7 @@ pub fn print(e: &Value, prec: u8, out: &mut String) {
         }
         "rep" => {
             out.push_str("(?:");
-            print(&e["x"], 0, out);
+            print_o(&e["x"], 0, out, o);
             out.push(')');
             let (lo, hi) = (n(e, "lo"), n(e, "hi"));
             match (lo, hi) {
@@ -102,59 +129,71 @@ pub fn print(e: &Value, prec: u8, out: &mut String) {
                 (lo, hi) if lo == hi => out.push_str(&format!("{{{}}}", lo)),
                 (lo, hi) => out.push_str(&format!("{{{},{}}}", lo, hi)),
             }
-            if !b(e, "g") {
+            if b(e, "g") == o.swap_greed {
                 out.push('?')
             }
         }
         "grp" => {
             // a named group is always called x1, x11, x111, ... (x followed by n ones), so that printer and
             // specification derive the name from the group number
-            if e.get("named").and_then(|v| v.as_bool()).unwrap_or(false) {
-                out.push_str("(?<x");
-                for _ in 0..n(e, "n") {
-                    out.push('1')
-                }
-                out.push('>')
+            if is_named(e) {
+                out.push_str(&format!("(?<{}>", gname(n(e, "n"))))
             } else {
                 out.push('(')
             }
-            print(&e["x"], 0, out);
+            print_o(&e["x"], 0, out, o);
             out.push(')')
         }
         "atom" => {
             out.push_str("(?>");
-            print(&e["x"], 0, out);
+            print_o(&e["x"], 0, out, o);
             out.push(')')
         }
         "look" => {
             out.push_str(if b(e, "neg") { "(?!" } else { "(?=" });
-            print(&e["x"], 0, out);
+            print_o(&e["x"], 0, out, o);
             out.push(')')
         }
         "lookb" => {
             out.push_str(if b(e, "neg") { "(?<!" } else { "(?<=" });
-            print(&e["x"], 0, out);
+            print_o(&e["x"], 0, out, o);
             out.push(')')
         }
-        "bref" => out.push_str(&format!("(?:\\{})", n(e, "n"))),
-        "bex" => out.push_str(&format!("(?({}))", n(e, "n"))),
+        "bref" => {
+            if is_named(e) {
+                out.push_str(&format!("\\k<{}>", gname(n(e, "n"))))
+            } else {
+                out.push_str(&format!("(?:\\{})", n(e, "n")))
+            }
+        }
+        "bex" => {
+            if is_named(e) {
+                out.push_str(&format!("(?(<{}>))", gname(n(e, "n"))))
+            } else {
+                out.push_str(&format!("(?({}))", n(e, "n")))
+            }
+        }
         "cond" => {
             out.push_str("(?(");
             let c = &e["c"];
             if s(c, "k") == "bex" {
-                out.push_str(&format!("{}", n(c, "n")))
+                if is_named(c) {
+                    out.push_str(&format!("<{}>", gname(n(c, "n"))))
+                } else {
+                    out.push_str(&format!("{}", n(c, "n")))
+                }
             } else if matches!(s(c, "k"), "look" | "lookb") {
-                print(c, 0, out)
+                print_o(c, 0, out, o)
             } else {
                 out.push_str("(?:");
-                print(c, 0, out);
+                print_o(c, 0, out, o);
                 out.push(')')
             }
             out.push(')');
-            print(&e["y"], 1, out);
+            print_o(&e["y"], 1, out, o);
             if s(&e["n"], "k") != "empty" {
                 out.push('|');
-                print(&e["n"], 1, out)
+                print_o(&e["n"], 1, out, o)
             }
             out.push(')')
         }
@@ -176,5 +215,23 @@ pub fn print(e: &Value, prec: u8, out: &mut String) {
 pub fn to_pattern(e: &Value) -> String {
     let mut out = String::new();
     print(e, 0, &mut out);
+    out
+}
+
+/// spelling variants used by the regex-crate differential: "" plain, "U" = (?U) + swapped laziness
+/// marks, "x" = (?x) + free spacing
+pub fn to_pattern_variant(e: &Value, variant: &str) -> String {
+    let mut out = String::new();
+    match variant {
+        "U" => {
+            out.push_str("(?U)");
+            print_o(e, 0, &mut out, &PrintOpt { swap_greed: true, spaces: false })
+        }
+        "x" => {
+            out.push_str("(?x) ");
+            print_o(e, 0, &mut out, &PrintOpt { swap_greed: false, spaces: true })
+        }
+        _ => print(e, 0, &mut out),
+    }
     out
 }
